@@ -36,7 +36,9 @@ type vdesc struct {
 }
 
 var packPrims = map[string]reflect.Type{"bool": reflect.TypeOf(true), "int8": reflect.TypeOf(int8(0)), "int64": reflect.TypeOf(int64(0)),
-	"uint64": reflect.TypeOf(uint64(0)), "float64": reflect.TypeOf(float64(0)), "string": reflect.TypeOf(""), "dur": reflect.TypeOf(time.Duration(0))}
+	"uint64": reflect.TypeOf(uint64(0)), "float64": reflect.TypeOf(float64(0)), "string": reflect.TypeOf(""), "dur": reflect.TypeOf(time.Duration(0)),
+	"int16": reflect.TypeOf(int16(0)), "int32": reflect.TypeOf(int32(0)), "int": reflect.TypeOf(int(0)), "uint8": reflect.TypeOf(uint8(0)),
+	"uint16": reflect.TypeOf(uint16(0)), "uint32": reflect.TypeOf(uint32(0)), "uint": reflect.TypeOf(uint(0)), "float32": reflect.TypeOf(float32(0))}
 
 func buildType(t tdesc) reflect.Type {
 	if p, ok := packPrims[t.K]; ok {
@@ -77,14 +79,23 @@ func buildVal(t tdesc, v vdesc, rt reflect.Type) reflect.Value {
 		var b bool
 		json.Unmarshal(v.V, &b)
 		out.SetBool(b)
-	case "int8", "int64", "dur":
-		n, _ := strconv.ParseInt(rawStr(v.V), 10, 64)
+	case "int8", "int16", "int32", "int64", "int", "dur":
+		n, err := strconv.ParseInt(rawStr(v.V), 10, rt.Bits())
+		if err != nil {
+			panic("universe: " + err.Error())
+		}
 		out.SetInt(n)
-	case "uint64":
-		n, _ := strconv.ParseUint(rawStr(v.V), 10, 64)
+	case "uint8", "uint16", "uint32", "uint64", "uint":
+		n, err := strconv.ParseUint(rawStr(v.V), 10, rt.Bits())
+		if err != nil {
+			panic("universe: " + err.Error())
+		}
 		out.SetUint(n)
-	case "float64":
-		f, _ := strconv.ParseFloat(rawStr(v.V), 64)
+	case "float32", "float64":
+		f, err := strconv.ParseFloat(rawStr(v.V), 64)
+		if err != nil || (t.K == "float32" && float64(float32(f)) != f) {
+			panic("universe: " + rawStr(v.V) + " is not a " + t.K)
+		}
 		out.SetFloat(f)
 	case "string":
 		out.SetString(rawStr(v.V))
